@@ -72,7 +72,7 @@ def make_plan(seed: int, tier: str, index: int) -> dict[str, Any]:
         if n_clients > 1 and s.random() < 0.8:
             schedule = {"mode": "geometric", "seed": s.getrandbits(32), "gap": s.choice([2, 3, 5, 10, 40])}
         return {"property": PROP, "seed": seed, "part": "session", "text": gen.render(doc),
-                "clients": clients, "schedule": schedule}
+                "clients": clients, "schedule": schedule, "fresh_map": p.random() < 0.5}
     # (b) record-order faults on one or more section bodies
     secs = gen.sections(doc)
     variants = [{"fault": "none", "text": gen.render_sections(secs)}]
@@ -138,6 +138,15 @@ def _execute_session(plan: dict[str, Any]) -> dict[str, Any]:
     except Exception as e:  # noqa: BLE001
         raise Discard("chart-rejected:" + type(e).__name__) from e
     be = chart.sync_track.bpm_events
+    if plan.get("fresh_map"):
+        # a tempo map nobody has queried yet (parsing already queried the chart's own map for
+        # the time signatures): same events and resolution through the public constructor
+        import dataclasses
+
+        try:
+            be = dataclasses.replace(be)
+        except TypeError:
+            pass
     ticks = [e.tick for e in be]
     n = len(ticks)
     violations: list[dict[str, Any]] = []
@@ -256,7 +265,8 @@ def _execute_session(plan: dict[str, Any]) -> dict[str, Any]:
         "nontrivial": nontrivial, "counters": counters, "sim_steps": sched.global_step,
         "ops": n_ops, "switches": sched.switches, "mid_op_switches": sched.mid_op_switches,
         "interleaving": sched.interleaving.hexdigest()[:32] if n_clients > 1 else None,
-        "sched_mode": sched.mode, "sub_batch": "session",
+        "sched_mode": sched.mode,
+        "sub_batch": "session/fresh-map" if plan.get("fresh_map") else "session/parsed-map",
         "sample": {"part": "session", "tempo_ticks": ticks, "clients": [c[:5] for c in plan["clients"]],
                    "schedule": plan["schedule"]},
         "harness_error": harness_error, "explicit_schedule": sched.explicit_schedule(),
